@@ -104,7 +104,7 @@ func (o *op07) String() string {
 		if len(v) > 160 {
 			v = v[:140] + "…"
 		}
-		fmt.Fprintf(&b, " value=%s opts={Indent=%d Sort=%v OmitNil=%v OmitEmpty=%v UseTags=%v KeyExact=%v NestEmbed=%v} limit=%d failCall=%d", v, o.Opt.Indent, o.Opt.Sort, o.Opt.OmitNil, o.Opt.OmitEmpty, o.Opt.UseTags, o.Opt.KeyExact, o.Opt.NestEmbed, o.Limit, o.FailCall)
+		fmt.Fprintf(&b, " value=%s opts={Indent=%d Tab=%v Sort=%v OmitNil=%v OmitEmpty=%v UseTags=%v KeyExact=%v NestEmbed=%v Color=%v} limit=%d failCall=%d", v, o.Opt.Indent, o.Opt.Tab, o.Opt.Sort, o.Opt.OmitNil, o.Opt.OmitEmpty, o.Opt.UseTags, o.Opt.KeyExact, o.Opt.NestEmbed, o.Opt.Color, o.Limit, o.FailCall)
 	}
 	if o.PanicAt >= 0 {
 		fmt.Fprintf(&b, " callerPanicAt=%d", o.PanicAt)
@@ -226,6 +226,11 @@ func drawOptions07(t *rapid.T) ojg.Options {
 	o.UseTags = sim.Intn(t, 3, "usetags") == 2
 	o.KeyExact = sim.Intn(t, 3, "keyexact") == 2
 	o.NestEmbed = sim.Intn(t, 4, "nestembed") == 3
+	if sim.Intn(t, 8, "color") == 7 {
+		d := ojg.DefaultOptions
+		o.Color = true
+		o.SyntaxColor, o.KeyColor, o.NullColor, o.BoolColor, o.NumberColor, o.StringColor, o.TimeColor, o.NoColor = d.SyntaxColor, d.KeyColor, d.NullColor, d.BoolColor, d.NumberColor, d.StringColor, d.TimeColor, d.NoColor
+	}
 	return o
 }
 
